@@ -98,6 +98,19 @@ def quatSum (q : Q α) (r : V3 α) : Q α := (quatExp r).mul q
 /-- `diff_quaternion`, one column: `log(q_left ⊗ q_right*)` (the logarithm carries the factor 2). -/
 def quatDiff (ql qr : Q α) : V3 α := quatLog (ql.mul qr.conj)
 
+/-! ### histories: an attitude state driven by a list of increments (the filters call
+`sum_quaternion_rotation_vector` once per step on the result of the step before) -/
+
+/-- the state after the increments `rs` (first element first): `q ↦ exp(r) ⊗ q` repeatedly -/
+def sumChain (q : Q α) : List (V3 α) → Q α
+  | [] => q
+  | r :: rs => sumChain (quatSum q r) rs
+
+/-- every intermediate state of the same history -/
+def sumTrace (q : Q α) : List (V3 α) → List (Q α)
+  | [] => []
+  | r :: rs => quatSum q r :: sumTrace (quatSum q r) rs
+
 /-! ### batches (matrices whose columns are quaternions / rotation vectors) -/
 
 def Q.ofCol {n : Nat} (m : Mat α 4 n) (j : Fin n) : Q α := ⟨m 0 j, m 1 j, m 2 j, m 3 j⟩
